@@ -95,7 +95,8 @@ MANIFEST = dict(
          'subclass>(..)` fail closed.',
 )
 
-IMPORTS = ['SV.SM.AtomicWriter', 'SV.SM.AtomicExit', 'SV.SM.AtomicReuse', 'SV.SM.AtomicRetry', 'SV.Gen.AtomicWriter_gen', 'Coq.Lists.List', 'Coq.Bool.Bool',
+IMPORTS = ['SV.SM.AtomicWriter', 'SV.SM.AtomicExit', 'SV.SM.AtomicReuse', 'SV.SM.AtomicRetry', 'SV.SM.AtomicProduct',
+           'SV.Gen.AtomicWriter_gen', 'Coq.Lists.List', 'Coq.Bool.Bool',
            'Coq.Arith.PeanoNat']
 PRE = 'Import ListNotations.\n'
 
@@ -1905,7 +1906,7 @@ def two_writer_campaign(ck: Ck, do_model: bool) -> None:
         eval_cases2(ck, cases)
 
 
-def product_campaign(ck: Ck) -> None:
+def product_campaign(ck: Ck, do_model: bool = False) -> None:
     """Reuse histories x concurrent writers (round 4): writer A is ONE AtomicWriter object used for a word of `with`
     blocks (S = body returns, B = body raises, F = an OSError is injected into the rename of that use), writer B is an
     ordinary single-use writer to another file of the same directory.  Every pair of operation boundaries (A has
@@ -1917,6 +1918,7 @@ def product_campaign(ck: Ck) -> None:
     writer opens, renames or removes a temp name the other writer holds."""
     work = str(ck.scratch / 'c12_product')
     big = is_big(ck)
+    cases: list[dict] = []
     init = {'a.bin': b'OLDA', 'b.bin': b'OLDB', 'keep.txt': b'k'}
     words = ['SS', 'BS', 'FS'] + (['SB', 'SSS', 'FB', 'SFS'] if escalated(ck) else [])
     B = dict(dest='b.bin', chunks=[b'B1', b'B2'])
@@ -1953,7 +1955,107 @@ def product_campaign(ck: Ck) -> None:
                     ck.seen(('product', word, text, ex))
                     ck.hist('product_word', word + ('-text' if text else ''))
                     product_check(ck, word, A, B, init, r, fault_at)
+                    if do_model and not text:
+                        product_case(word, A, B, init, r, cases)
         ck.extra.setdefault('product', {})[word + ('-text' if text else '')] = {'runs': nrun, 'ops': [n1, n2]}
+    if do_model and cases:
+        eval_product_cases(ck, cases)
+
+
+def product_case(word: str, A: dict, B: dict, init: dict[str, bytes], r: dict, cases: list[dict]) -> None:
+    """One executed product run -> corr_product aw_proto (SM/AtomicProduct.v): A's uses become segments, every model
+    event is scheduled in the segment of the use of A that is running or comes next."""
+    nm = NameMap({'init': init, 'dest': 'a.bin'}, dests=['a.bin', 'b.bin'])
+    wmap: dict[int, tuple[int, bytes]] = {}
+    off = 0
+    for j, ch in enumerate(B['chunks']):
+        wmap[90 + j + 1] = (off, ch)
+        off += len(ch)
+    scenB = coq_scen(1, [90 + j + 1 for j in range(len(B['chunks']))], [], None)
+    merged: list[tuple[int, int, int, list[int]]] = []       # (global op number, writer, use of A or -1, event)
+    nuse = len(A['uses'])
+    scens = []
+    for u, use in enumerate(A['uses']):
+        tok = 10 * (u + 1) + 1
+        wmap[tok] = (0, use['chunks'][0])
+        scens.append(coq_scen(0, [tok], [], use.get('raise_after')))
+
+        def wtokA(n: int, oo: dict, u: int = u) -> int:
+            t = 10 * (u + 1) + n
+            return t if wmap.get(t) == (oo['off'], oo['data']) else 0
+        evs, _why, ks = canon_events_k([o for o in r['ops'] if o['w'] == 0 and o['u'] == u], nm, wtokA)
+        if evs is None:
+            cases.append(dict(coq=None, what={'word': word, 'schedule': r['executed'], 'why': _why}))
+            return
+        merged += [(k, 0, u, e) for k, e in zip(ks, evs)]
+
+    def wtokB(n: int, oo: dict) -> int:
+        return 90 + n if wmap.get(90 + n) == (oo['off'], oo['data']) else 0
+    evs, _why, ks = canon_events_k([o for o in r['ops'] if o['w'] == 1], nm, wtokB)
+    if evs is None:
+        cases.append(dict(coq=None, what={'word': word, 'schedule': r['executed'], 'why': _why}))
+        return
+    merged += [(k, 1, -1, e) for k, e in zip(ks, evs)]
+    merged.sort()
+    # the segment of an event of B: the use of A that comes next (the last one when A is done)
+    segs: list[list[str]] = [[] for _ in range(nuse)]
+    nxt = nuse - 1
+    for k, w, u, e in reversed(merged):
+        if w == 0:
+            nxt = u
+        segs[nxt if w == 1 else u].insert(0, f'({"true" if w else "false"}, {"true" if e[3] == 3 else "false"})')
+    # uses of A that were never started (an earlier use left its temp file) have no events: the model history ends there too
+    last = max([u for _k, w, u, _e in merged if w == 0] + [0])
+    h = coq_list(f'({scens[u]}, {coq_list(segs[u])})' for u in range(last + 1))
+    max_tmp = 4
+    cases.append(dict(coq=f'corr_product aw_proto {scenB} {h} {nm.coq_init()} {coq_list(nm.probe_names(max_tmp))}',
+                      events=[[w] + e for _k, w, _u, e in merged], listing=r['listing'], nm=nm, wmap=wmap, max_tmp=max_tmp,
+                      outA=(r['per_use'][0][last] if last < len(r['per_use'][0]) else None), outB=r['outcomes'][1],
+                      cleanup_fault=any(o['res'] == 'fault' and o['op'] == 'unlink' for o in r['ops']),
+                      what={'word': word, 'schedule': r['executed']}))
+
+
+def eval_product_cases(ck: Ck, cases: list[dict]) -> None:
+    bad: list[dict] = [{'what': c['what']} for c in cases if c['coq'] is None]
+    good = [c for c in cases if c['coq'] is not None]
+    n = 0
+    for lo in range(0, len(good), 600):
+        part = good[lo:lo + 600]
+        vals = ck.coq_eval(IMPORTS, [coq_list(c['coq'] for c in part)], name='aw_product', preamble=PRE)
+        if vals is None:
+            ck.obligation('correspondence:product', False, 'model could not be evaluated')
+            ck.tie_broken.append('correspondence AtomicWriter (product): model evaluation failed')
+            return
+        for c, res in zip(part, parse_coq_nested(vals[0])):
+            n += 1
+            ck.count('model_cases_product')
+            pc1, pc2, events, probes = res
+            nm: NameMap = c['nm']
+            diffs: list[dict] = []
+            if events != c['events']:
+                diffs.append({'events_model': events, 'events_real': c['events']})
+            if c['outA'] is not None and (pc1[2] == 0) != (c['outA'] == 'ok'):
+                diffs.append({'model_pc_A': pc1, 'real_outcome_of_the_last_use_of_A': c['outA']})
+            if (pc2[2] == 0) != (c['outB'] == 'ok'):
+                diffs.append({'model_pc_B': pc2, 'real_outcome_of_B': c['outB']})
+            for b, enc in zip(nm.probe_bases(c['max_tmp']), probes):
+                toks = opt_content(enc)
+                real = c['listing'].get(b)
+                if c['cleanup_fault'] and NameMap.tmp_index(b) is not None and b not in nm.init:
+                    if (toks is None) != (real is None):
+                        diffs.append({'name': b, 'model_present': toks is not None, 'real_present': real is not None})
+                    continue
+                exp = nm.expect_bytes(toks, c['wmap'])
+                if exp != real:
+                    diffs.append({'name': b, 'model': repr(exp)[:60], 'real': repr(real)[:60]})
+            if diffs:
+                bad.append({'what': c['what'], 'diffs': diffs[:6]})
+    ck.obligation('correspondence:product', not bad,
+                  f'{n} executed runs of a reuse history of one real writer interleaved with a second writer vs corr_product '
+                  f'aw_proto (prunt, SM/AtomicProduct.v: A restarts at mkdir after every finished use): {len(bad)} disagreements')
+    if bad:
+        ck.tie_broken.append('correspondence AtomicWriter (product): real trace/directory differs from the model')
+        ck.extra['product_disagreements'] = bad[:5]
 
 
 def product_check(ck: Ck, word: str, A: dict, B: dict, init: dict[str, bytes], r: dict, fault_at: int | None) -> None:
@@ -2761,7 +2863,7 @@ def _campaigns(ck: Ck, built: bool, background: '_TheoremsInBackground | None' =
     two_writer_campaign(ck, bool(built))
     stage['two'] = round(time.time() - t1, 1)
     t1 = time.time()
-    product_campaign(ck)
+    product_campaign(ck, bool(built))
     stage['product'] = round(time.time() - t1, 1)
     reuse_keys = [v['key'] for v in ck.violations if v['key'].startswith('reuse:')]
     keys = {v['key'].removeprefix('bsp-save:').removeprefix('reuse:') for v in ck.violations}
